@@ -544,3 +544,83 @@ pub fn copy_to_volatile_slice<const MODE: u8>() {
     }
     post::<MODE>(&c, 0, n, &|j| src_copy[so + j]);
 }
+
+/// stream -> memory through the Bytes stream forms, source = in-memory byte slice (`ReadVolatile for &[u8]`)
+pub fn stream_read<const MODE: u8, const EXACT: bool>() {
+    let mut c = ctx();
+    let (loc, lo, ll) = local();
+    let addr: usize = kani::any();
+    let count: usize = kani::any();
+    kani::assume(count <= L);
+    let (wo, wc) = (c.wo, c.wc);
+    let rec = &c.rec;
+    let root = c.root;
+    let src_all = &loc.0[lo..lo + ll];
+    let mut src: &[u8] = src_all;
+    let mut n = 0usize;
+    if EXACT {
+        let r = on_slice!(MODE, rec, root, &mut c.mem.0[wo..wo + wc], |s| s.read_exact_volatile_from(addr, &mut src, count));
+        let fits = addr as u128 + count as u128 <= wc as u128;
+        if MODE == 0 {
+            assert!(r.is_ok() == (fits && count <= ll));
+        }
+        if r.is_ok() {
+            n = count;
+        }
+        kani::cover!(r.is_ok() && count > 8);
+        kani::cover!(r.is_err() && fits);
+        leak(r);
+    } else {
+        let r = on_slice!(MODE, rec, root, &mut c.mem.0[wo..wo + wc], |s| s.read_volatile_from(addr, &mut src, count));
+        if MODE == 0 {
+            match &r {
+                Ok(k) => assert!(addr <= wc && *k == core::cmp::min(core::cmp::min(count, wc - addr), ll)),
+                Err(_) => assert!(addr > wc),
+            }
+        }
+        if let Ok(k) = &r {
+            n = *k;
+        }
+        kani::cover!(r.is_ok() && n > 0 && n < count);
+        kani::cover!(r.is_ok() && n == count && count > 8);
+        leak(r);
+    }
+    if MODE == 0 {
+        assert!(src.len() == ll - n); // consumed exactly what was stored
+    }
+    post::<MODE>(&c, addr, n, &|j| src_all[j]);
+}
+
+/// memory -> stream (`WriteVolatile for &mut [u8]`): a read-type operation on guest memory
+pub fn stream_write<const MODE: u8>() {
+    let mut c = ctx();
+    let (mut loc, lo, ll) = local();
+    let addr: usize = kani::any();
+    let count: usize = kani::any();
+    kani::assume(count <= L);
+    let (wo, wc) = (c.wo, c.wc);
+    let rec = &c.rec;
+    let root = c.root;
+    let mut n = 0usize;
+    {
+        let mut dst: &mut [u8] = &mut loc.0[lo..lo + ll];
+        let r = on_slice!(MODE, rec, root, &mut c.mem.0[wo..wo + wc], |s| s.write_volatile_to(addr, &mut dst, count));
+        if MODE == 0 {
+            match &r {
+                Ok(k) => assert!(addr <= wc && *k == core::cmp::min(core::cmp::min(count, wc - addr), ll)),
+                Err(_) => assert!(addr > wc),
+            }
+        }
+        if let Ok(k) = &r {
+            n = *k;
+        }
+        kani::cover!(r.is_ok() && n > 0);
+        leak(r);
+    }
+    if MODE == 0 {
+        let k: usize = kani::any();
+        kani::assume(k < n);
+        assert!(loc.0[lo + k] == c.before[wo + addr + k]);
+    }
+    post_read::<MODE>(&c);
+}
